@@ -20,6 +20,10 @@ type c14Case struct {
 	S     string          `json:"s"`
 	Class string          `json:"class"`
 	Move  *mon.ScalarMove `json:"move,omitempty"` // the object first holds Move.From, is observed, then is driven to S
+	// Counter != nil: one object, starting at S, is observed and then incremented in place Counter[0] times, observed,
+	// Counter[1] times, observed, ... (the distances between two consecutive observations are the exact powers of two at
+	// which a generation stamp or an update counter of any width wraps).
+	Counter []uint64 `json:"counter,omitempty"`
 }
 
 func init() {
@@ -31,12 +35,12 @@ func init() {
 			"Every position must have been observed both as 0 and as 1. " +
 			"History cases: the same *Scalar object first holds another value and is observed (Bits, Encode), is then driven to the target value through each mutator of the API " +
 			"(Set, Decode, UnmarshalBinary, DecodeHex, CSelect with conditions 0/1/high-bit, Add, Subtract, Multiply, SetUInt64, Zero, One, MinusOne, Random with scripted entropy, Invert, Pow, Square, nil arguments, a rejected Decode), and Bits is judged again; " +
-			"plus a decoy object of equal value observed and then mutated before the judged call. non-trivial = value > 1; distinct by (value, history).",
+			"plus a decoy object of equal value observed and then mutated before the judged call. Counters: one object observed, incremented in place exactly 2^8 times, observed, 2^16 times, observed (thorough: also 2^24 and 2^32 times), from three starting values incl. one that wraps past n. non-trivial = value > 1; distinct by (value, history).",
 		NewCase:  func() any { return &c14Case{} },
 		Generate: c14Generate,
 		Run:      c14Run,
 		Require: func(string) map[string]int64 {
-			return map[string]int64{"bit255=1": 100, "pow2": 256, "scalars": 1000, "history-cases": 400, "via:cselect1": 10, "via:random": 10, "via:decode": 10, "bits:position-seen-as-0-or-1": 512}
+			return map[string]int64{"bit255=1": 100, "pow2": 256, "scalars": 1000, "history-cases": 400, "via:cselect1": 10, "via:random": 10, "via:decode": 10, "bits:position-seen-as-0-or-1": 512, "counter-runs": 6}
 		},
 	})
 
@@ -90,6 +94,16 @@ func c14Generate(c *mon.Ctx) {
 		}
 	}
 
+	// counters: 2^8, 2^16 (and in the thorough tier 2^24, 2^32) in-place updates between two observations of one object
+	for _, start := range []string{"1", fmt.Sprintf("%x", new(big.Int).Sub(n, big.NewInt(1<<15))), fmt.Sprintf("%x", gen.Draw(hr, n).X)} {
+		start, dist := start, []uint64{1 << 8, 1 << 16}
+		c.Structured(func() any { return &c14Case{S: start, Class: "counter", Counter: dist} })
+	}
+
+	if c.Thorough() && c.Stride() == 1 {
+		c.Structured(func() any { return &c14Case{S: "2", Class: "counter", Counter: []uint64{1 << 24, 1 << 32}} })
+	}
+
 	c.Random(c.N(50000, 5000000), func(r *gen.Rng) any {
 		if r.Intn(10) == 0 {
 			mv := mon.PlanScalarMove(mon.ScalarVias[r.Intn(len(mon.ScalarVias))], r)
@@ -111,6 +125,11 @@ func c14Run(c *mon.Ctx, csAny any) {
 		c14RunConc(c, cs.Conc)
 		return
 	}
+	if cs.Counter != nil {
+		c14RunCounter(c, cs)
+		return
+	}
+
 	var (
 		v *big.Int
 		s *secp256k1.Scalar
@@ -219,6 +238,62 @@ func c14Run(c *mon.Ctx, csAny any) {
 			c.Sample(map[string]any{"case": cs, "highest_set_positions_reported": on, "bitlen_of_value": v.BitLen()})
 		}
 	}
+}
+
+func c14RunCounter(c *mon.Ctx, cs *c14Case) {
+	v := mon.BigH(cs.S)
+	s, one := mon.Scal(v), mon.Scal(big.NewInt(1))
+	total := uint64(0)
+
+	observe := func() bool {
+		c.Eval(1)
+
+		var bits [256]uint8
+
+		if pan, pv := mon.Call(func() { bits = s.Bits() }); pan {
+			c.Fail(fmt.Sprint("Bits panicked after ", total, " in-place increments of one object: ", pv), "bits-counter-panic", nil)
+			return false
+		}
+
+		for i := 0; i < 256; i++ {
+			if uint(bits[i]) != v.Bit(i) {
+				c.Fail(fmt.Sprintf("Bits()[%d] = %d but bit %d of the value is %d: one object, started at %s, observed, and incremented in place %d times in all (the last observation was %d increments ago)", i, bits[i], i, v.Bit(i), cs.S, total, cs.Counter), "bits-counter", nil)
+				return false
+			}
+		}
+
+		if got := new(big.Int).SetBytes(s.Encode()); got.Cmp(v) != 0 {
+			c.Count("encode-disagrees-with-held-value")
+		}
+
+		return true
+	}
+
+	if !observe() {
+		return
+	}
+
+	for _, d := range cs.Counter {
+		if pan, pv := mon.Call(func() {
+			for i := uint64(0); i < d; i++ {
+				s.Add(one)
+			}
+		}); pan {
+			c.Fail(fmt.Sprint("Add panicked in a run of in-place increments: ", pv), "bits-counter-panic", nil)
+			return
+		}
+
+		total += d
+		v = oracle.Mod(new(big.Int).Add(v, new(big.Int).SetUint64(d)), oracle.N)
+
+		if !observe() {
+			return
+		}
+
+		c.Count("counter-runs")
+	}
+
+	c.Seen(cs.S, cs.Counter)
 }
 
 func c14RunConc(c *mon.Ctx, seed uint64) {
